@@ -1,13 +1,17 @@
 /-
 LDM subscriptions (C14): IF.LDM.4 subscribe/unsubscribe, LDMService.attend_subscriptions /
-process_notifications (repaired: a deregistered consumer is dropped BEFORE notifying), reactive attendance on
-add (LDMServiceReactive: >= 0.5 s monotonic since the last attendance).  Extends the C12 machine.
+process_notifications (repaired: a deregistered consumer is dropped BEFORE notifying; an exception while attending
+one subscription does not stop the attendance; a subscription removed during the attendance — by a callback that
+re-enters IF.LDM.4 — is not notified any more), reactive attendance on add (LDMServiceReactive: >= 0.5 s monotonic
+since the last attendance).  Callbacks may raise or re-enter (unsubscribe / deregister): `CbAct`.
+Extends the C12 machine.
 
 Variant (known finding C14-KF1): `uniqueIds = false` is the code as it is, subscription id = hash(request), so
 equal requests share one id and unsubscribing removes all of them.
 Core Lean only.
 -/
 import FlexModel.Ldm.Store
+import Generated.LdmSubs
 
 namespace FlexModel.Ldm
 open Generated.Ldm
@@ -58,18 +62,28 @@ structure SOut where
   calls : List Call
   deriving Inhabited
 
-def maxNotify : Int := 4398046511103
+/-- `is_valid_priority` / `is_valid_notify_time` / `is_valid_multiplicity`: None, or inside the accepted interval
+(the intervals are probed on the real methods: Generated/LdmSubs.lean) -/
+def inRange (rg : Int × Int) : Option Int → Bool
+  | some v => decide (rg.1 ≤ v) && decide (v ≤ rg.2)
+  | none => true
 
-/-- `validate_subscribe_data_consumer`: the refusal code, in ladder order -/
+/-- the validator methods of IF.LDM.4, by name; a validator the model does not know refuses everything (the
+correspondence with the code then fails on the first valid request) -/
+def validatorOk (consumers : List Nat) (r : SubReq) (name : String) : Bool :=
+  if name = "is_valid_its_aid" then consumers.contains r.app
+  else if name = "is_valid_data_object_type" then r.types.all validType
+  else if name = "is_valid_priority" then inRange Generated.LdmSubs.prioRange r.prio
+  else if name = "is_valid_order" then !(r.order.isSome && r.orderBad)
+  else if name = "is_valid_filter" then !r.filterBad
+  else if name = "is_valid_notify_time" then inRange Generated.LdmSubs.notifyRange r.notify
+  else if name = "is_valid_multiplicity" then inRange Generated.LdmSubs.multRange r.mult
+  else false
+
+/-- `validate_subscribe_data_consumer`: the checks in SOURCE ORDER with the result code each returns
+(`Generated.LdmSubs.subscribeLadder`, an ast pass over if_ldm_4.py); the first failing check decides -/
 def subscribeRefusal (consumers : List Nat) (r : SubReq) : Option Nat :=
-  if !consumers.contains r.app then some 1
-  else if r.types.any (fun t => !validType t) then some 2
-  else if (match r.prio with | some p => p < 0 || p > 255 | none => false) then some 3
-  else if r.order.isSome && r.orderBad then some 7
-  else if r.filterBad then some 4
-  else if (match r.notify with | some n => n < 0 || n > maxNotify | none => false) then some 5
-  else if (match r.mult with | some m => m < 0 || m > 255 | none => false) then some 6
-  else none
+  (Generated.LdmSubs.subscribeLadder.find? (fun p => !validatorOk consumers r p.1)).map (·.2)
 
 def lcGet (lc : List (Sub × Int)) (s : Sub) : Option Int := (lc.find? (fun p => p.1 == s)).map (·.2)
 def lcSet (lc : List (Sub × Int)) (s : Sub) (t : Int) : List (Sub × Int) :=
@@ -92,13 +106,51 @@ def subMatches (rows : List Record) (r : SubReq) : Except Err (Option (List Reco
       let o ← orderResults found ks
       pure (some o)
 
-/-- the body of the loop in `attend_subscriptions` for one subscription -/
+/-- what a consumer's callback does when it is invoked, besides receiving the data: nothing, raise an exception, or
+re-enter IF.LDM.4 — unsubscribe (`target` as in `SOp.unsubscribe`) or deregister a consumer.  (A callback that adds
+data or subscribes is outside the model.) -/
+inductive CbAct where
+  | none
+  | raises
+  | unsub (app : Nat) (target : Option (SubReq × Nat))
+  | dereg (app : Nat)
+  deriving DecidableEq, Inhabited
+
+/-- IF.LDM.4 `unsubscribe_data_consumer` / `delete_subscription`: new state and result code -/
+def doUnsub (uniqueIds : Bool) (s : SSt) (app : Nat) (target : Option (SubReq × Nat)) : SSt × Nat :=
+  if !s.core.consumers.contains app then (s, 1)
+  else match target with
+    | none => (s, 1)
+    | some (r, cb) =>
+      let hit (x : Sub) : Bool := if uniqueIds then x.cb == cb && x.req == r else x.req == r
+      let victims := s.subs.filter hit
+      if victims.isEmpty then (s, 1)
+      else (victims.foldl removeSub s, 0)
+
+/-- IF.LDM.4 `deregister_data_consumer` (`del_data_consumer_its_aid` also drops the subscriptions of the application) -/
+def doDereg (cfg : Cfg) (s : SSt) (app : Nat) : SSt × Out :=
+  let (c1, o) := step cfg s.core (.deregConsumer app)
+  let s1 := { s with core := c1 }
+  (if s.core.consumers.contains app then (s.subs.filter (fun x => x.req.app == app)).foldl removeSub s1 else s1, o)
+
+/-- the effect of a callback's action on the LDM (an exception raised by a callback is caught by the attendance) -/
+def applyAct (cfg : Cfg) (uniqueIds : Bool) (s : SSt) : CbAct → SSt
+  | .none => s
+  | .raises => s
+  | .unsub app target => (doUnsub uniqueIds s app target).1
+  | .dereg app => (doDereg cfg s app).1
+
+/-- the body of the loop in `attend_subscriptions` for one subscription (`attend_subscription` + the deregistration
+test before it): search, multiplicity, order (may raise), then — repaired code, fixes/C14-removed-subscription-not-
+notified — a subscription removed since the snapshot was taken is skipped, then `process_notifications` -/
 def attendOne (s : SSt) (x : Sub) : Except Err (SSt × List Call × Bool) :=
   if !s.core.consumers.contains x.req.app then pure (s, [], true)
   else do
     match ← subMatches (s.core.db.rows.map (·.2)) x.req with
     | none => pure (s, [], false)
     | some objs =>
+      if !s.subs.contains x then pure (s, [], false)
+      else
       let now := nowIts s.core.utcMs
       let (lc, last) := match lcGet s.lastChecked x with
         | some t => (s.lastChecked, t)
@@ -108,32 +160,40 @@ def attendOne (s : SSt) (x : Sub) : Except Err (SSt × List Call × Bool) :=
       else
         pure ({ s with lastChecked := lcSet lc x now }, [{ cb := x.cb, app := x.req.app, objs := objs }], false)
 
-/-- the loop over the snapshot; an exception stops it (the removals are then not carried out) -/
-def attendLoop : SSt → List Sub → List Call → List Sub → SSt × List Call × Option Err
+/-- the loop over the snapshot (repaired code, fixes/C14-attendance-isolation): an exception while attending one
+subscription (ordering TypeError, raising callback) is caught and the loop goes on; every callback's action takes
+effect before the next subscription of the snapshot is attended; the removals come last -/
+def attendLoop (cfg : Cfg) (u : Bool) (β : Nat → CbAct) : SSt → List Sub → List Call → List Sub → SSt × List Call
+  | s, [], calls, rm => (rm.foldl removeSub s, calls)
+  | s, x :: xs, calls, rm =>
+    match attendOne s x with
+    | .error _ => attendLoop cfg u β s xs calls rm
+    | .ok (s1, cs, drop) =>
+      attendLoop cfg u β (cs.foldl (fun st c => applyAct cfg u st (β c.cb)) s1) xs (calls ++ cs) (if drop then rm ++ [x] else rm)
+
+def attend (cfg : Cfg) (u : Bool) (β : Nat → CbAct) (s : SSt) : SSt × List Call := attendLoop cfg u β s s.subs [] []
+
+/-- the code before fixes/C14-attendance-isolation: the first exception stops the loop (later subscriptions are not
+attended, the removals are not carried out) and escapes to the caller -/
+def attendLoopOld : SSt → List Sub → List Call → List Sub → SSt × List Call × Option Err
   | s, [], calls, rm => (rm.foldl removeSub s, calls, none)
   | s, x :: xs, calls, rm =>
     match attendOne s x with
     | .error e => (s, calls, some e)
-    | .ok (s1, cs, drop) => attendLoop s1 xs (calls ++ cs) (if drop then rm ++ [x] else rm)
+    | .ok (s1, cs, drop) => attendLoopOld s1 xs (calls ++ cs) (if drop then rm ++ [x] else rm)
 
-def attend (s : SSt) : SSt × List Call × Option Err := attendLoop s s.subs [] []
-
-def sstep (cfg : Cfg) (uniqueIds : Bool) (s : SSt) : SOp → SSt × SOut
+def sstep (cfg : Cfg) (uniqueIds : Bool) (β : Nat → CbAct) (s : SSt) : SOp → SSt × SOut
   | .core (.add app ts loc obj validity) =>
     let (c1, o) := step cfg s.core (.add app ts loc obj validity)
     let s1 := { s with core := c1 }
     if !s.core.providers.contains app then (s1, { out := o, calls := [] })
     else if s.core.monoMs - s.lastAttend ≥ attendIntervalMs then
-      match attend s1 with
-      | (s2, calls, none) => ({ s2 with lastAttend := s.core.monoMs }, { out := o, calls := calls })
-      | (s2, calls, some e) => (s2, { out := .exc e, calls := calls })
+      let (s2, calls) := attend cfg uniqueIds β s1
+      ({ s2 with lastAttend := s.core.monoMs }, { out := o, calls := calls })
     else (s1, { out := o, calls := [] })
   | .core (.deregConsumer app) =>
-    -- `del_data_consumer_its_aid` also drops the subscriptions of the application
-    let (c1, o) := step cfg s.core (.deregConsumer app)
-    let s1 := { s with core := c1 }
-    (if s.core.consumers.contains app then (s.subs.filter (fun x => x.req.app == app)).foldl removeSub s1 else s1,
-     { out := o, calls := [] })
+    let (s1, o) := doDereg cfg s app
+    (s1, { out := o, calls := [] })
   | .core op =>
     let (c1, o) := step cfg s.core op
     ({ s with core := c1 }, { out := o, calls := [] })
@@ -144,24 +204,17 @@ def sstep (cfg : Cfg) (uniqueIds : Bool) (s : SSt) : SOp → SSt × SOut
       let x : Sub := { req := r, cb := cb }
       ({ s with subs := s.subs ++ [x], lastChecked := lcSet s.lastChecked x (nowIts s.core.utcMs) }, { out := .code 0, calls := [] })
   | .unsubscribe app target =>
-    if !s.core.consumers.contains app then (s, { out := .code 1, calls := [] })
-    else match target with
-      | none => (s, { out := .code 1, calls := [] })
-      | some (r, cb) =>
-        let hit (x : Sub) : Bool := if uniqueIds then x.cb == cb && x.req == r else x.req == r
-        let victims := s.subs.filter hit
-        if victims.isEmpty then (s, { out := .code 1, calls := [] })
-        else (victims.foldl removeSub s, { out := .code 0, calls := [] })
+    let (s1, c) := doUnsub uniqueIds s app target
+    (s1, { out := .code c, calls := [] })
   | .attend =>
-    match attend s with
-    | (s1, calls, none) => (s1, { out := .none, calls := calls })
-    | (s1, calls, some e) => (s1, { out := .exc e, calls := calls })
+    let (s1, calls) := attend cfg uniqueIds β s
+    (s1, { out := .none, calls := calls })
 
-def srun (cfg : Cfg) (uniqueIds : Bool) : SSt → List SOp → SSt × List SOut
+def srun (cfg : Cfg) (uniqueIds : Bool) (β : Nat → CbAct) : SSt → List SOp → SSt × List SOut
   | s, [] => (s, [])
   | s, op :: ops =>
-    let (s1, o) := sstep cfg uniqueIds s op
-    let (s2, os) := srun cfg uniqueIds s1 ops
+    let (s1, o) := sstep cfg uniqueIds β s op
+    let (s2, os) := srun cfg uniqueIds β s1 ops
     (s2, o :: os)
 
 end FlexModel.Ldm
